@@ -200,8 +200,24 @@ func runC33(c *Ctx) {
 			if !ok {
 				return false, false
 			}
-			l, r := types.ExprString(cm.L), types.ExprString(cm.R)
-			if (l == "registered" && r == "job.peerState") || (r == "registered" && l == "job.peerState") {
+			// the job currently registered (result of relocationJob) compared with the dead worker's own snapshot
+			isRegistered := func(e ast.Expr) bool {
+				id, ok := ast.Unparen(e).(*ast.Ident)
+				if !ok {
+					return false
+				}
+				def, ok := singleLocalDefIn(info, ht.Decl.Body, info.ObjectOf(id)).(*ast.CallExpr)
+				if !ok {
+					return false
+				}
+				cal := callee(info, def)
+				return cal != nil && cal.Name() == "relocationJob"
+			}
+			isSnapshot := func(e ast.Expr) bool {
+				fv := selField(info, e)
+				return fv != nil && fv.Name() == "peerState"
+			}
+			if (isRegistered(cm.L) && isSnapshot(cm.R)) || (isRegistered(cm.R) && isSnapshot(cm.L)) {
 				return true, cm.Op.String() == "=="
 			}
 			return false, false
